@@ -3,6 +3,7 @@ package sim
 import (
 	"fmt"
 	"io"
+	"strings"
 
 	"gosim/hb"
 	"gosim/rng"
@@ -149,6 +150,22 @@ func (e *Env) apply(f *Fault) {
 				desc = "merge -> " + m.Name
 			}
 		}
+	case "metahole":
+		// hbase:meta loses the row of one region that is not the first of its
+		// table (as between the steps of a split or merge): a lookup of a key of
+		// that region finds the row of its predecessor
+		if rs := c.LiveRegions(f.Table); len(rs) >= 2 {
+			r := rs[1+f.Region%(len(rs)-1)]
+			r.MetaHidden = true
+			desc = "metahole " + r.Name
+		} else {
+			desc = "metahole (not applicable)"
+		}
+	case "metaunhide":
+		for _, r := range c.Regions {
+			r.MetaHidden = false
+		}
+		desc = "metaunhide"
 	case "procfail":
 		desc = "every third procedure fails with " + f.Rule.Class
 		c.ProcFail = f.Rule.Class
@@ -229,6 +246,11 @@ func (e *Env) apply(f *Fault) {
 			return out
 		}
 		desc = "metabad " + kind
+		if strings.HasPrefix(kind, "region-older") || strings.HasPrefix(kind, "rowkey-") {
+			// the client is told about regions that never existed: requests naming
+			// them are the fault's doing, the server-side observers stay silent
+			c.Corrupting = true
+		}
 	case "dialdelay":
 		e.DialDelay = ms(f.Dur)
 		desc = fmt.Sprintf("dialdelay %v", e.DialDelay)
@@ -297,6 +319,7 @@ func (e *Env) Heal() {
 		}
 	}
 	for _, r := range c.Regions {
+		r.MetaHidden = false
 		if r.State == hb.Opening {
 			c.SetOpening(r, false)
 		}
